@@ -20,7 +20,7 @@ Not decided: all interleavings of the two streams.
 import re
 
 from facts import short_name
-from kinds import (rel, k1_callers, k1_constructors, comparisons, result_blocks, k2_site_guarded,
+from kinds import (must_be_equal, rel, k1_callers, k1_constructors, comparisons, result_blocks, k2_site_guarded,
                    on_all_success_paths, bool_payload_edges)
 
 CRATES = ["astria_conductor.lib", "astria_core.lib"]
@@ -69,33 +69,16 @@ def x2(prog, rep):
     # ---- soft
     body = prog.main_body(EX + "execute_soft")
     rpc = body.calls_to(EX + "execute_block")
-    cmpc = [c for c in body.calls if c.matches(r"core::cmp::Ord::cmp$|::cmp$")
-            and "executable_block" in body.root(c.args[0]) or
-            (c.matches(r"::cmp$") and "height" in body.root(c.args[0]))]
-    cmpc = [c for c in body.calls if short_name(c.callee) == "cmp"]
     rep.floor("X2", len(rpc), 1, "execute_block in execute_soft")
-    rep.floor("X2", len(cmpc), 1, "height.cmp(..) in execute_soft")
-    if rpc and cmpc:
-        c = cmpc[0]
-        a = [body.root(x) for x in c.args]
-        rep.check(re.search(r"from_sequencer\(.*\)\.height$", a[0]) is not None and
-                  a[1] == "next_expected_soft_sequencer_height(self.state)", "X2", "soft:cmp-operands",
-                  f"soft block height compared as cmp({a[0][:60]}, {a[1][:60]})", c.where())
-        # switch on the Ordering discriminant
-        eq_edges = []
-        other = []
-        for bb in sorted(body.live_blocks()):
-            t = body.term(bb)
-            if t[0] == "switch" and body._disc_source(bb, t) is not None and \
-                    body.root(t[1]).startswith("disc(cmp("):
-                for v, tgt in t[2]:
-                    (eq_edges if v == 0 else other).append((bb, tgt))
-                if body.term(t[3])[0] != "unreachable":
-                    other.append((bb, t[3]))
-        rep.check(bool(eq_edges) and body.must_pass_edges(set(eq_edges), rpc[0].bb), "X2",
-                  "soft:rpc<=height==expected",
+    if rpc:
+        # the block's own height must equal the next expected soft height on every path to the
+        # RPC, however the three-way decision is spelled (match on cmp, ==, or two early exits)
+        ok, how = must_be_equal(body, r"from_sequencer\(.*\)\.height",
+                                r"next_expected_soft_sequencer_height\(self\.state\)", rpc[0].bb)
+        rep.check(ok, "X2", "soft:rpc<=height==expected",
                   "execute_soft can issue ExecuteBlock for a block whose height is not the next "
-                  "expected soft height (stale or skipped block executed)", rpc[0].where())
+                  "expected soft height (stale or skipped block executed)", rpc[0].where(),
+                  detail=how)
         ra = [body.root(x) for x in rpc[0].args]
         rep.check(ra[2] == "soft_hash(self.state)", "X2", "soft:parent=soft_hash",
                   f"soft block executed on parent `{ra[2][:60]}`", rpc[0].where())
